@@ -55,10 +55,11 @@ func (op c10Op) isDef() bool {
 }
 
 type c10Inst struct {
-	Name int
-	Kind string // KInst KFac KDef KDFac
-	ID   int
-	Num  int
+	Name  int
+	Kind  string // KInst KFac KDef KDFac
+	ID    int
+	Num   int
+	Wired []*c10Inst `json:"-"` // what the factory's dependencies resolved to when the instance was built
 }
 
 type c10Obs struct {
@@ -191,16 +192,23 @@ func (x *c10Run) factory(name int, kind string, id int, p *c10Prog) app.Factory 
 			x.deep = true
 			return nil, errors.New("harness: recursion cut")
 		}
+		var wired []*c10Inst
 		if p.ViaInject {
-			ptr, _ := c10MkStruct(p.Deps, 0)
+			ptr, read := c10MkStruct(p.Deps, 0)
 			if err := dp.InjectTo(ptr); err != nil {
 				return nil, err
 			}
+			wired = read()
 		} else {
 			for _, d := range p.Deps {
-				if _, err := dp.Get(c10Name(d.Name)); err != nil && !d.Opt {
+				v, err := dp.Get(c10Name(d.Name))
+				if err != nil && !d.Opt {
 					return nil, err
 				}
+				if err != nil {
+					v = nil
+				}
+				wired = append(wired, c10AsInst(v))
 			}
 		}
 		if p.Fails {
@@ -209,7 +217,7 @@ func (x *c10Run) factory(name int, kind string, id int, p *c10Prog) app.Factory 
 		if p.Nil {
 			return nil, nil
 		}
-		return &c10Inst{Name: name, Kind: kind, ID: id, Num: num}, nil
+		return &c10Inst{Name: name, Kind: kind, ID: id, Num: num, Wired: wired}, nil
 	}
 }
 
@@ -379,7 +387,13 @@ func (ob c10Obs) coq(op c10Op) string {
 	for i, k := range ob.Keys {
 		keys[i] = c10KeyNum(k)
 	}
-	return fmt.Sprintf("(%s, %s, %s)", out, coqList(runs), coqList(keys))
+	var wired []string
+	if op.Kind == "get" && ob.Res == "ok" {
+		for _, w := range ob.Inst.Wired {
+			wired = append(wired, c10Tok(w))
+		}
+	}
+	return fmt.Sprintf("(%s, %s, %s, %s)", out, coqList(runs), coqList(keys), coqList(wired))
 }
 
 func c10CaseCoq(ops []c10Op, obs []c10Obs) string {
@@ -717,6 +731,17 @@ func c10History(o *Out, ops []c10Op, res c10Result) {
 			continue
 		}
 		s := collect(single, r)[n]
+		if s.ok && base[n].ok {
+			// measured, not judged: the content (wiring) of the instance may depend on the request order
+			if w1, w2 := c10WiringOf(single, r, n), c10WiringOf(ops, res, n); w1 != w2 {
+				o.Stat("wiring_depends_on_request_order")
+				if _, ok := o.Extra["wiring_sample"]; !ok {
+					o.Extra["wiring_sample"] = map[string]interface{}{"name": n, "first_request": w1, "in_history": w2, "ops": ops}
+				}
+			} else {
+				o.Stat("wiring_same")
+			}
+		}
 		if s.ok != base[n].ok || s.kind != base[n].kind || s.id != base[n].id {
 			o.Fail("history_independent", fmt.Sprintf("Get n%d as the first request: ok=%v %s#%d; inside the history: ok=%v %s#%d", n, s.ok, s.kind, s.id, base[n].ok, base[n].kind, base[n].id), "history_independent", desc)
 		}
@@ -739,6 +764,25 @@ func c10History(o *Out, ops []c10Op, res c10Result) {
 			}
 		}
 	}
+}
+
+// wiring of the instance the first successful Get n returned: which dependencies were filled
+func c10WiringOf(ops []c10Op, r c10Result, n int) string {
+	for i, op := range ops {
+		if op.Kind == "get" && op.Name == n && r.obs[i].Res == "ok" && r.obs[i].Inst != nil {
+			var sb strings.Builder
+			for _, w := range r.obs[i].Inst.Wired {
+				if w == nil {
+					sb.WriteString("-")
+				} else {
+					fmt.Fprintf(&sb, "n%d", w.Name)
+				}
+				sb.WriteString(" ")
+			}
+			return sb.String()
+		}
+	}
+	return "?"
 }
 
 // ---- generators
@@ -765,10 +809,10 @@ func c10GenProg(rng *RNG, self, nNames int, mode int) *c10Prog {
 		}
 		p.Deps = append(p.Deps, c10Dep{Name: d, Opt: rng.Chance(30)})
 	}
-	if rng.Chance(8) {
+	if rng.Chance(6) {
 		p.Fails = true
 	}
-	if rng.Chance(5) {
+	if rng.Chance(4) {
 		p.Nil = true
 	}
 	return p
@@ -845,6 +889,28 @@ func c10GenProgram(rng *RNG) (ops []c10Op, shape string) {
 	}
 	if rng.Chance(6) { // a request that does not freeze, before the definitions
 		ops = append(ops, c10Op{Kind: "sinject", Static: 5})
+	}
+	if mode != 2 && rng.Chance(65) {
+		// covering: every name of the program gets at least one definition (random kind), random order
+		perm := make([]int, nNames)
+		for i := range perm {
+			perm[i] = i
+		}
+		for i := nNames - 1; i > 0; i-- {
+			j := rng.Intn(i + 1)
+			perm[i], perm[j] = perm[j], perm[i]
+		}
+		for _, n := range perm {
+			d := c10GenDef(rng, nNames, mode, id)
+			d.Name = n
+			if d.Prog != nil {
+				d.Prog = c10GenProg(rng, n, nNames, mode)
+			}
+			ops = append(ops, d)
+			id++
+		}
+		ndefs = rng.Intn(13 - nNames)
+		shape += "+cover"
 	}
 	for i := 0; i < ndefs; i++ {
 		ops = append(ops, c10GenDef(rng, nNames, mode, id))
